@@ -146,9 +146,17 @@ class DtcDop(DopBase):
                 DecodeError)
             return
 
-        trouble_code = self.compu_method.convert_internal_to_physical(int_trouble_code)
+        try:
+            trouble_code = self.compu_method.convert_internal_to_physical(int_trouble_code)
+        except (ArithmeticError, ValueError) as e:
+            # e.g., infinite or NaN floating point objects which are
+            # supposed to be converted to integers
+            raise DecodeError(f"DTC-DOP {self.short_name} could not convert the coded value "
+                              f"{repr(int_trouble_code)}: {e}") from e
 
-        assert isinstance(trouble_code, int)
+        if not isinstance(trouble_code, int):
+            raise DecodeError(f"DTC-DOP {self.short_name}: the trouble code {repr(trouble_code)} "
+                              f"is not an integer")
 
         dtcs = [x for x in self.dtcs if x.trouble_code == trouble_code]
 
